@@ -213,7 +213,33 @@ def r15_2(ctx) -> None:
                 if x is not None:
                     safes.append(x)
         okb = bool(tests) and bool(safes)
-        if okb:
+        if tests and not safes:
+            # the gate may be written in place (or have been inlined): decide it as a truth table over the three atoms - no completing path has
+            # 'b64' in header without crit being a list that contains 'b64'
+            from ..decide import outcomes
+
+            def atom_of(e):
+                if isinstance(e, ast.Compare) and len(e.ops) == 1 and isinstance(e.ops[0], (ast.In, ast.NotIn)) and const_value(e.left) == "b64":
+                    c = norm(e.comparators[0])
+                    pol = isinstance(e.ops[0], ast.In)
+                    if c == hp:
+                        return ("b64_in_header", pol)
+                    if c in (f"{hp}.get('crit')", f"{hp}['crit']", f"{hp}.get('crit', None)"):
+                        return ("b64_in_crit", pol)
+                if isinstance(e, ast.Call) and isinstance(e.func, ast.Name) and e.func.id == "isinstance" and len(e.args) == 2 and norm(e.args[1]) in ("list", "(list,)") \
+                        and norm(e.args[0]) in (f"{hp}.get('crit')", f"{hp}['crit']", f"{hp}.get('crit', None)"):
+                    return ("crit_is_list", True)
+                return None
+            try:
+                outs = outcomes(fn, atom_of, max_nodes=120)
+                okb = True
+                for o in outs:
+                    if o.kind in ("return", "fall") and o.literals.get("b64_in_header") is True and not (o.literals.get("crit_is_list") is True and o.literals.get("b64_in_crit") is True):
+                        okb = False
+                okb = okb and any(o.literals.get("b64_in_header") is True for o in outs)
+            except AnalysisError:
+                okb = False
+        elif okb:
             for t in tests:
                 lab = "true" if isinstance(t.ast.ops[0], ast.In) else "false"
                 for s0 in succ_by_label(cfg, t, lab):
@@ -231,13 +257,14 @@ def alg_specific_validation_ok(eng, fn: FunctionInfo, vrh: Optional[FunctionInfo
     cfg = cfg_of(fn)
     hp = fn.pos_params[1]
     d = []
+    from .common import resolve_all as _ra
     for s in _calls_to(eng, fn, vrh):
-        if len(s.node.args) >= 3 and norm(s.node.args[0]).endswith(".more_header_registry") and norm(s.node.args[1]) == hp \
+        if len(s.node.args) >= 3 and all(t_.endswith(".more_header_registry") for t_ in _ra(eng, fn, s.node.args[0])) and norm(s.node.args[1]) == hp \
                 and norm(s.node.args[2]) == "check_more":
             x = cfg.node_of(s.node)
             if x is not None:
                 d.append(x)
-    mt = [t for t in cfg.nodes if t.kind == "test" and norm(t.ast).endswith(".more_header_registry")]
+    mt = [t for t in cfg.nodes if t.kind == "test" and (norm(t.ast).endswith(".more_header_registry") or all(t_.endswith(".more_header_registry") for t_ in _ra(eng, fn, t.ast)))]
     if not d:
         return False
     if not mt:
